@@ -60,6 +60,9 @@ class SimFile:
         self._readable = "r" in mode or "+" in mode
         self._buf = bytearray()
         self._pos = 0
+        self._wpos = 0  # offset of the next write syscall (in-place overwrite when the file was not truncated)
+        self._append = "a" in mode
+        self._fd = None
         self.closed = False
         self.encoding = "utf-8"
         self.newlines = None
@@ -92,7 +95,9 @@ class SimFile:
         return False
 
     def fileno(self):
-        raise io.UnsupportedOperation("fileno")
+        if self._fd is None:
+            self._fd = self.fs._new_fd(self)
+        return self._fd
 
     # -- writing ---------------------------------------------------------
     def write(self, s):
@@ -266,6 +271,8 @@ class SimFS:
             f._buf = bytearray()
             f.closed = True
         self._open_files = set()
+        self._fds = {}
+        self._next_fd = self.FD_BASE
 
     def _fire(self, kind):
         self.fired[kind] = self.fired.get(kind, 0) + 1
@@ -323,19 +330,104 @@ class SimFS:
             raise OSError(errno.ENOSPC, "No space left on device (simulated)")
         if f is not None and f.get("op") == k and f["kind"] == "torn":
             n = max(0, min(int(f["n"]), len(chunk)))
-            fobj._inode.data += chunk[:n]
+            self._persist(fobj, chunk[:n])
             self.oplog.append((k, "write", fobj.name, {"len": len(chunk), "persisted": n, "torn": True}))
             self.seq = k + 1
             self._crash("torn")
         if f is not None and f.get("op") == k and f["kind"] == "enospc":
             n = max(0, min(int(f["n"]), len(chunk)))
-            fobj._inode.data += chunk[:n]
+            self._persist(fobj, chunk[:n])
             self.full = True
             self._fire("enospc")
             self._end_op(k, "write", fobj.name, {"len": len(chunk), "persisted": n, "err": "ENOSPC"})
             raise OSError(errno.ENOSPC, "No space left on device (simulated)")
-        fobj._inode.data += chunk
+        self._persist(fobj, chunk)
         self._end_op(k, "write", fobj.name, {"len": len(chunk), "persisted": len(chunk)})
+
+    @staticmethod
+    def _persist(fobj, data: bytes):
+        ino = fobj._inode
+        if fobj._append:
+            fobj._wpos = len(ino.data)
+        end = fobj._wpos + len(data)
+        if fobj._wpos > len(ino.data):
+            ino.data += bytes(fobj._wpos - len(ino.data))
+        ino.data[fobj._wpos : end] = data
+        fobj._wpos = end
+
+    # ---- file descriptors (os.open / os.fdopen / os.fsync / os.close / os.write)
+    FD_BASE = 1 << 20
+
+    def _new_fd(self, obj):
+        if not hasattr(self, "_fds"):
+            self._fds = {}
+            self._next_fd = self.FD_BASE
+        fd = self._next_fd
+        self._next_fd += 1
+        self._fds[fd] = obj
+        return fd
+
+    def is_fd(self, fd):
+        return isinstance(fd, int) and fd >= self.FD_BASE and fd in getattr(self, "_fds", {})
+
+    def os_open(self, path, flags, mode=0o777):
+        path = os.fspath(path)
+        d = path.rstrip("/")
+        is_dir = d == VROOT or d in self.dirs or any(p.startswith(d + "/") for p in self.files)
+        if is_dir and path not in self.files:
+            k = self._begin_op("open_dir", path)
+            self._end_op(k, "open_dir", path)
+            return self._new_fd(("dir", path))
+        acc = flags & (os.O_WRONLY | os.O_RDWR)
+        exists = path in self.files
+        if (flags & os.O_CREAT) and (flags & os.O_EXCL) and exists:
+            raise FileExistsError(errno.EEXIST, "File exists", path)
+        if not exists and not (flags & os.O_CREAT):
+            k = self._begin_op("open_r", path)
+            self._end_op(k, "open_r", path, {"err": "ENOENT"})
+            raise FileNotFoundError(errno.ENOENT, "No such file or directory", path)
+        kind = "open_r" if not acc else ("open_w" if flags & os.O_TRUNC else "open_rw")
+        k = self._begin_op(kind, path)
+        ino = self.files.get(path)
+        if ino is None:
+            ino = self.files[path] = Inode()
+        elif flags & os.O_TRUNC and acc:
+            del ino.data[:]
+        m = "rb" if not acc else ("ab" if flags & os.O_APPEND else "r+b")
+        fobj = SimFile(self, path, ino, m)
+        fobj._writable = bool(acc)
+        fobj._readable = not (flags & os.O_WRONLY)
+        fobj._append = bool(flags & os.O_APPEND)
+        if acc:
+            self._open_files.add(fobj)
+        fd = self._new_fd(fobj)
+        fobj._fd = fd
+        self._end_op(k, kind, path, {"flags": int(flags)})
+        return fd
+
+    def os_fdopen(self, fd, mode="r", *args, **kwargs):
+        obj = self._fds[fd]
+        if isinstance(obj, tuple):
+            raise IsADirectoryError(errno.EISDIR, "Is a directory", obj[1])
+        obj._binary = "b" in mode
+        obj.mode = mode
+        return obj
+
+    def os_fsync(self, fd):
+        obj = self._fds.get(fd) if isinstance(fd, int) else fd
+        name = obj[1] if isinstance(obj, tuple) else getattr(obj, "name", "?")
+        self._op("fsync", name)
+
+    def os_close(self, fd):
+        obj = self._fds.pop(fd)
+        if not isinstance(obj, tuple):
+            obj.close()
+
+    def os_write(self, fd, data):
+        obj = self._fds[fd]
+        self._user_write(obj)
+        self._write_syscall(obj, bytes(data))
+        return len(data)
 
     # ---- API seen by the code under test
     def open(self, path, mode="r", *args, **kwargs):
@@ -428,11 +520,14 @@ def _install_patches():
         return
     _REAL["open"] = builtins.open
     _REAL["io_open"] = io.open
-    for name in ("rename", "replace", "remove", "unlink", "stat", "lstat", "fsync", "makedirs", "mkdir"):
+    _REAL["open_os"] = os.open
+    for name in ("rename", "replace", "remove", "unlink", "stat", "lstat", "fsync", "makedirs", "mkdir", "fdopen", "close", "write", "fdatasync"):
         _REAL[name] = getattr(os, name)
 
     def sim_open(file, mode="r", *args, **kwargs):
         fs = _ACTIVE[0]
+        if fs is not None and isinstance(file, int) and fs.is_fd(file):
+            return fs.os_fdopen(file, mode)
         if fs is not None and _is_virtual(file):
             return fs.open(file, mode, *args, **kwargs)
         return _REAL["open"](file, mode, *args, **kwargs)
@@ -474,9 +569,42 @@ def _install_patches():
         return _REAL["lstat"](path, *a, **k)
 
     def sim_fsync(fd):
+        fs = _ACTIVE[0]
         if isinstance(fd, SimFile):
-            return None
+            return fs.os_fsync(fd) if fs is not None else None
+        if fs is not None and fs.is_fd(fd):
+            return fs.os_fsync(fd)
         return _REAL["fsync"](fd)
+
+    def sim_fdatasync(fd):
+        fs = _ACTIVE[0]
+        if fs is not None and (isinstance(fd, SimFile) or fs.is_fd(fd)):
+            return fs.os_fsync(fd)
+        return _REAL["fdatasync"](fd)
+
+    def sim_os_open(path, flags, mode=0o777, *a, **k):
+        fs = _ACTIVE[0]
+        if fs is not None and _is_virtual(path):
+            return fs.os_open(path, flags, mode)
+        return _REAL["open_os"](path, flags, mode, *a, **k)
+
+    def sim_fdopen(fd, *a, **k):
+        fs = _ACTIVE[0]
+        if fs is not None and fs.is_fd(fd):
+            return fs.os_fdopen(fd, *a, **k)
+        return _REAL["fdopen"](fd, *a, **k)
+
+    def sim_close(fd):
+        fs = _ACTIVE[0]
+        if fs is not None and fs.is_fd(fd):
+            return fs.os_close(fd)
+        return _REAL["close"](fd)
+
+    def sim_write(fd, data):
+        fs = _ACTIVE[0]
+        if fs is not None and fs.is_fd(fd):
+            return fs.os_write(fd, data)
+        return _REAL["write"](fd, data)
 
     def sim_makedirs(name, *a, **k):
         if _ACTIVE[0] is not None and _is_virtual(name):
@@ -497,6 +625,11 @@ def _install_patches():
     os.stat = sim_stat
     os.lstat = sim_lstat
     os.fsync = sim_fsync
+    os.fdatasync = sim_fdatasync
+    os.open = sim_os_open
+    os.fdopen = sim_fdopen
+    os.close = sim_close
+    os.write = sim_write
     os.makedirs = sim_makedirs
     os.mkdir = sim_mkdir
 
